@@ -224,6 +224,9 @@ pub fn run_prop<C: Debug + Clone, S: Strategy<Value = C>>(
         failure_persistence: None,
         rng_seed: RngSeed::Fixed(seed),
         max_shrink_iters: 4000,
+        // minimisation is a convenience: it never changes a verdict, and with
+        // process-spawning cases 4000 iterations can take a quarter of an hour
+        max_shrink_time: 120_000,
         ..Config::default()
     });
     let cell = RefCell::new(std::mem::take(rec));
